@@ -72,6 +72,7 @@ fn main() {
         "C17" => props::c17::run(tier, seed, only.and_then(|s| s.parse().ok()), props::c17::Which::Crash),
         "C18" => props::c17::run(tier, seed, only.and_then(|s| s.parse().ok()), props::c17::Which::Privacy),
         "C19" => props::c19::run(tier, seed, only.and_then(|s| s.parse().ok())),
+        "C20" => props::c20::run(tier, seed, only.and_then(|s| s.parse().ok())),
         "C07" => props::c07::run(tier, seed, only),
         "C04" => props::c04::run(tier, seed, only),
         "C05" => props::c05::run(tier, seed, only.and_then(|s| s.parse().ok())),
